@@ -410,6 +410,26 @@ def run_check(prop, argv=None):
             continue
         new_violations.append((key, msg, path))
 
+    # every open finding has a committed minimal replay: run it, so that the
+    # finding is reported even if the search did not hit it, and so that a
+    # finding that stopped reproducing is noticed
+    for kk, ent in known.items():
+        rp = ent.get('replay')
+        if not rp:
+            continue
+        try:
+            with open(os.path.join(VERIF, rp)) as f:
+                doc = json.load(f)
+            r2 = prop.execute(doc['case'])
+            hit = any(key_matches(k2, [kk]) for k2, _ in r2.violations)
+        except BaseException as e:
+            harness_error = 'known-finding replay %s failed: %r' % (rp, e)
+            continue
+        if hit:
+            reported_known.setdefault(kk, 0)
+        else:
+            print('KNOWN-FINDING-GONE: property=%s %s no longer reproduces '
+                  '(%s)' % (prop.ID, kk, rp))
     for kk, cnt in reported_known.items():
         print('KNOWN-FINDING: property=%s %s [%s; %d case(s) this run]' % (
             prop.ID, known[kk]['summary'], kk, cnt))
